@@ -48,6 +48,9 @@ def class_methods(tree, cls):
 # ---------------------------------------------------------------------------------------------
 
 def canon_names(fn):
+    """name → role. `self`; other parameters `arg<i>`; a local is identified by the expression it is FIRST bound to
+    (parameters inside it by role, other locals as `_`), so that neither renaming a variable nor adding another local
+    changes the tables — while rebinding a receiver to something else does."""
     if not isinstance(fn, (ast.FunctionDef, ast.AsyncFunctionDef)):
         return {}
     m = {}
@@ -55,18 +58,65 @@ def canon_names(fn):
     params = [x.arg for x in a.posonlyargs + a.args] + ([a.vararg.arg] if a.vararg else []) + [x.arg for x in a.kwonlyargs] + ([a.kwarg.arg] if a.kwarg else [])
     for i, n in enumerate(params):
         m[n] = 'self' if (i == 0 and n == 'self') else f'arg{i}'
-    stores = []
+    binds = []   # (line, col, name, description of the bound expression)
+    def targets(t, desc):
+        if isinstance(t, ast.Name):
+            binds.append((t.lineno, t.col_offset, t.id, desc))
+        elif isinstance(t, (ast.Tuple, ast.List)):
+            for i, e in enumerate(t.elts): targets(e, ('unpack', i, desc))
+        elif isinstance(t, ast.Starred):
+            targets(t.value, ('star', desc))
     for node in ast.walk(fn):
-        if isinstance(node, ast.Name) and isinstance(node.ctx, (ast.Store, ast.Del)):
-            stores.append((node.lineno, node.col_offset, node.id))
+        if isinstance(node, ast.Assign):
+            for t in node.targets: targets(t, node.value)
+        elif isinstance(node, ast.AnnAssign) and node.value is not None:
+            targets(node.target, node.value)
+        elif isinstance(node, ast.AnnAssign):
+            pass   # a bare annotation binds nothing
+        elif isinstance(node, ast.AugAssign):
+            targets(node.target, node.value)
+        elif isinstance(node, (ast.For, ast.AsyncFor)):
+            targets(node.target, ('iter', node.iter))
+        elif isinstance(node, ast.comprehension):
+            targets(node.target, ('iter', node.iter))
+        elif isinstance(node, (ast.With, ast.AsyncWith)):
+            for it in node.items:
+                if it.optional_vars is not None: targets(it.optional_vars, ('with', it.context_expr))
         elif isinstance(node, ast.ExceptHandler) and node.name:
-            stores.append((node.lineno, node.col_offset, node.name))
-        elif isinstance(node, ast.arg) and node.arg not in m:   # parameters of nested lambdas / functions
-            stores.append((node.lineno, node.col_offset, node.arg))
-    k = 0
-    for _, _, n in sorted(stores):
-        if n not in m:
-            k += 1; m[n] = f'loc{k}'
+            binds.append((node.lineno, node.col_offset, node.name, 'exception'))
+        elif isinstance(node, ast.NamedExpr):
+            targets(node.target, node.value)
+        elif isinstance(node, ast.arg) and node.arg not in m:
+            binds.append((node.lineno, node.col_offset, node.arg, 'lambda-parameter'))
+    first = {}
+    for ln, col, n, desc in sorted(binds, key=lambda x: (x[0], x[1])):
+        if n not in m and n not in first:
+            first[n] = desc
+    locals_ = set(first)
+    def head(e, depth=0):
+        """a short, stable description of an expression: its head constructor, receivers by role"""
+        if isinstance(e, ast.Name):
+            if e.id in m and not m[e.id].startswith('«'): return m[e.id]
+            if e.id in locals_: return '_'
+            return e.id
+        if isinstance(e, ast.Attribute): return head(e.value, depth) + '.' + e.attr
+        if isinstance(e, ast.Call): return head(e.func, depth) + '(…)'
+        if isinstance(e, ast.Subscript): return head(e.value, depth) + '[…]'
+        if isinstance(e, (ast.List, ast.Tuple, ast.Set)): return ('[]' if not e.elts else '[…]')
+        if isinstance(e, ast.Dict): return ('{}' if not e.keys else '{…}')
+        if isinstance(e, ast.IfExp): return head(e.body, depth) + ' if … else ' + head(e.orelse, depth)
+        if isinstance(e, ast.UnaryOp): return type(e.op).__name__.lower() + ' …'
+        if isinstance(e, ast.BinOp): return head(e.left, depth) + ' ' + type(e.op).__name__.lower() + ' …'
+        if isinstance(e, ast.Constant): return type(e.value).__name__
+        return type(e).__name__
+    def show(desc):
+        if isinstance(desc, ast.AST): return head(desc)
+        if isinstance(desc, tuple):
+            if desc[0] == 'unpack': return f'{show(desc[2])}[{desc[1]}]'
+            return f'{desc[0]}({show(desc[1])})'
+        return str(desc)
+    descs = {n: '«' + show(desc).replace('"', "'") + '»' for n, desc in first.items()}
+    m.update(descs)
     return m
 
 class _Renamer(ast.NodeTransformer):
@@ -126,10 +176,10 @@ def attr_writes(fn):
 
 BUFFER_SITES = [
     # (lean name, method, callee, receiver, occurrence index among such calls in the method)
-    ('padShiftInplace', 'pad', 'shift', 'loc1', 0),            # the copy of self made first thing in pad()
+    ('padShiftInplace', 'pad', 'shift', '«self.copy(…)»', 0),   # the copy of self made first thing in pad()
     ('valuePadInplace', 'value', 'pad', 'self', 0),
-    ('addPadInplace1', '__add__', 'pad', 'loc2', 0),        # `right`, the alias of the second operand bound second in __add__
-    ('addPadInplace2', '__add__', 'pad', 'loc2', 1),
+    ('addPadInplace1', '__add__', 'pad', '«arg1»', 0),        # `right`, the local alias of the second operand
+    ('addPadInplace2', '__add__', 'pad', '«arg1»', 1),
     ('andPadInplace', '__and__', 'pad', 'arg1', 0),
     ('orPadInplace', '__or__', 'pad', 'arg1', 0),
     ('xorPadInplace', '__xor__', 'pad', 'arg1', 0),
